@@ -636,6 +636,31 @@ Section General.
     - apply adot_ext. exact H.
   Qed.
 
+  (* sharper: only the atoms whose forces are read matter (oneSiteTotalForce: the first group only) *)
+  Lemma cvc_ft_local_measured (c : RC) (F G : RF) : (forall a, In a (cvc_measured c) -> F a = G a) -> ft c F = ft c G.
+  Proof.
+    intros H.
+    assert (E : forall g, (forall a, In a (gids g) -> In a (cvc_measured c)) -> gforce Rops F g = gforce Rops G g).
+    { intros g Hg. apply gforce_ext. intros a Ha. apply H, Hg, Ha. }
+    destruct c as [g1 g2 os|gm gr gr2 axis os|gm gr gr2 axis os|g1 g2 g3 os|g1 g2 g3 g4 os|ids|ids refs c|ids refs evec c];
+      cbn [cvc_ft cvc_measured] in *.
+    - destruct os; [rewrite (E g1) by (intros a Ha; exact Ha); reflexivity|].
+      rewrite (E g1), (E g2) by (intros a Ha; rewrite ?in_app_iff; tauto). reflexivity.
+    - destruct gr2 as [g2|]; [rewrite (E gm) by (intros a Ha; exact Ha); reflexivity|].
+      destruct os; [rewrite (E gm) by (intros a Ha; exact Ha); reflexivity|].
+      rewrite (E gm), (E gr) by (intros a Ha; rewrite ?in_app_iff; tauto). reflexivity.
+    - destruct gr2 as [g2|]; [rewrite (E gm) by (intros a Ha; exact Ha); reflexivity|].
+      destruct os; [rewrite (E gm) by (intros a Ha; exact Ha); reflexivity|].
+      rewrite (E gm), (E gr) by (intros a Ha; rewrite ?in_app_iff; tauto). reflexivity.
+    - destruct os; [rewrite (E g1) by (intros a Ha; exact Ha); reflexivity|].
+      rewrite (E g1), (E g3) by (intros a Ha; rewrite ?in_app_iff; tauto). reflexivity.
+    - destruct os; [rewrite (E g1) by (intros a Ha; exact Ha); reflexivity|].
+      rewrite (E g1), (E g4) by (intros a Ha; rewrite ?in_app_iff; tauto). reflexivity.
+    - apply adot_ext. exact H.
+    - f_equal. apply adot_ext. exact H.
+    - apply adot_ext. exact H.
+  Qed.
+
   Lemma cvc_apply_support (c : RC) fc a : ~ In a (cvc_atoms c) -> app c fc a = v0.
   Proof.
     intros H.
@@ -1280,6 +1305,9 @@ Proof. exact cv_proj_linear. Qed.
 Lemma thm_local : forall (mass : nat -> R) (pos : RF) (c : RC) (F G : RF),
   (forall a, In a (cvc_atoms c) -> F a = G a) -> cvc_ft Rops PI mass pos c F = cvc_ft Rops PI mass pos c G.
 Proof. exact cvc_ft_local. Qed.
+Lemma thm_local_measured : forall (mass : nat -> R) (pos : RF) (c : RC) (F G : RF),
+  (forall a, In a (cvc_measured c) -> F a = G a) -> cvc_ft Rops PI mass pos c F = cvc_ft Rops PI mass pos c G.
+Proof. exact cvc_ft_local_measured. Qed.
 Lemma thm_local_variable : forall (mass : nat -> R) (pos : RF) (cv : colvar) (F G : RF),
   (forall a, In a (cv_atoms cv) -> F a = G a) -> cv_proj Rops PI mass pos cv F = cv_proj Rops PI mass pos cv G.
 Proof. exact cv_proj_local. Qed.
